@@ -5,6 +5,8 @@ import (
 	"fmt"
 	"os"
 	"path/filepath"
+	"reflect"
+	"slices"
 	"sort"
 	"strconv"
 	"strings"
@@ -45,7 +47,7 @@ type History struct {
 func (h History) String() string { b, _ := json.Marshal(h); return string(b) }
 
 var intUniverse = []int{0, 1, 2, 3, -1, 7, 5, -8, 100, 64, 33, -100, 12, 11, 13, 99, 98, 97, 41, 42, 43, 44, -5, -6, 6, 8, 9, 10, 21, 22, 23, 24, 25, 26, 27, 28, 29, 30, 31, 32, 34, 35, 36, 37, 38, 39, 40, 45, 46, 47, 48, 49, 50, 51, 52, 53, 54, 55, 56, 57, 58, 59, 60, 61}
-var strUniverse = []string{"", "a", "ab", "abc", "b", "ba", "A", "z", "aa", "aaa", "0", "10", "9", "é", "ab0", "abd"}
+var strUniverse = []string{"", "a", "10%", "ab", "rate%d", "abc", "b", "%s", "ba", "A", "z", "%", "aa", "aaa", "0", "10", "9", "é", "ab0", "abd", "a%v", "%!d"}
 
 type c18Stats struct {
 	histories     int
@@ -92,12 +94,19 @@ func parseList(s string) ([]pnode, error) {
 
 // runHistory executes h against the real skip list and a Go map. Must be
 // called inside a bubble whose clock the caller controls.
-func runHistory[K comparable](h History, universe []K, cmp ord.Ord[K], show func(K) string, st *c18Stats) *driver.Violation {
+func runHistory[K comparable, V any](h History, universe []K, cmp ord.Ord[K], show func(K) string, mk func(int) V, eq func(a, b V) bool, st *c18Stats) (res *driver.Violation) {
 	viol := func(clause, class, format string, args ...any) *driver.Violation {
 		return &driver.Violation{Property: "C18", Clause: clause, Stage: "skiplist/" + h.Keys, Class: class, Msg: fmt.Sprintf(format, args...)}
 	}
-	var list maplike.MapLike[K, int] = skiplist.New[K, int](cmp)
-	ref := map[K]int{}
+	// an operation that panics is a wrong answer, not a crash of the checker
+	cur := -1
+	defer func() {
+		if r := recover(); r != nil {
+			res = viol("C18.a", "an operation panicked", "history %v: op %d panicked: %v", h, cur, r)
+		}
+	}()
+	var list maplike.MapLike[K, V] = skiplist.New[K, V](cmp)
+	ref := map[K]V{}
 	less := func(a, b K) bool { return cmp.Compare(a, b) == ord.LT }
 	// statistics use the printed form taken after the previous operation, if
 	// any: they never print on their own (printing is an operation too)
@@ -115,6 +124,7 @@ func runHistory[K comparable](h History, universe []K, cmp ord.Ord[K], show func
 		return 0
 	}
 	for n, op := range h.Ops {
+		cur = n
 		k := universe[op.I%len(universe)]
 		tallBefore := 0
 		switch op.K {
@@ -123,8 +133,8 @@ func runHistory[K comparable](h History, universe []K, cmp ord.Ord[K], show func
 			if existed && st != nil {
 				tallBefore = heightNow(n, show(k))
 			}
-			r := list.Put(k, op.V)
-			ref[k] = op.V
+			r := list.Put(k, mk(op.V))
+			ref[k] = mk(op.V)
 			if r != list {
 				return viol("C18.a", "Put did not return the list", "op %d %v", n, op)
 			}
@@ -133,8 +143,8 @@ func runHistory[K comparable](h History, universe []K, cmp ord.Ord[K], show func
 			}
 		case "get":
 			got := list.Get(k)
-			if want := ref[k]; got != want {
-				return viol("C18.a", "Get returned a value different from the map model", "history %v: op %d get(%v) = %d, model %d", h, n, show(k), got, want)
+			if want := ref[k]; !eq(got, want) {
+				return viol("C18.a", "Get returned a value different from the map model", "history %v: op %d get(%v) = %v, model %v", h, n, show(k), got, want)
 			}
 		case "remove":
 			if _, ok := ref[k]; ok && st != nil {
@@ -157,8 +167,8 @@ func runHistory[K comparable](h History, universe []K, cmp ord.Ord[K], show func
 			got := list.Remove(k)
 			want := ref[k]
 			delete(ref, k)
-			if got != want {
-				return viol("C18.a", "Remove returned a value different from the map model", "history %v: op %d remove(%v) = %d, model %d", h, n, show(k), got, want)
+			if !eq(got, want) {
+				return viol("C18.a", "Remove returned a value different from the map model", "history %v: op %d remove(%v) = %v, model %v", h, n, show(k), got, want)
 			}
 		}
 		// C18.b: printed form
@@ -279,14 +289,22 @@ func execHistory(h History, st *c18Stats) *driver.Violation {
 	if d := time.Duration(h.ClockN) - time.Since(bubbleStart); d > 0 {
 		time.Sleep(d)
 	}
+	idInt := func(v int) int { return v }
+	eqInt := func(a, b int) bool { return a == b }
+	rev := ord.From[int](func(a, b int) ord.Ordering { return ord.Int.Compare(b, a) })
 	switch h.Keys {
 	case "int":
-		return runHistory[int](h, intUniverse, ord.Int, strconv.Itoa, st)
+		return runHistory[int, int](h, intUniverse, ord.Int, strconv.Itoa, idInt, eqInt, st)
 	case "intrev":
-		rev := ord.From[int](func(a, b int) ord.Ordering { return ord.Int.Compare(b, a) })
-		return runHistory[int](h, intUniverse, rev, strconv.Itoa, st)
+		return runHistory[int, int](h, intUniverse, rev, strconv.Itoa, idInt, eqInt, st)
 	case "string":
-		return runHistory[string](h, strUniverse, ord.String, func(s string) string { return s }, st)
+		return runHistory[string, int](h, strUniverse, ord.String, func(s string) string { return s }, idInt, eqInt, st)
+	case "int/slice": // values of a type that cannot be compared with ==
+		return runHistory[int, []int](h, intUniverse, ord.Int, strconv.Itoa, func(v int) []int { return []int{v} }, slices.Equal[[]int], st)
+	case "string/any": // interface values holding maps
+		return runHistory[string, any](h, strUniverse, ord.String, func(s string) string { return s },
+			func(v int) any { return map[int]bool{v: true} },
+			func(a, b any) bool { return reflect.DeepEqual(a, b) }, st)
 	}
 	return &driver.Violation{Property: "C18", Clause: "infra", Class: "unknown key type " + h.Keys}
 }
@@ -303,7 +321,7 @@ func inBubble(t *testing.T, f func()) {
 }
 
 func genHistory(r *driver.Rand, thorough bool) History {
-	h := History{Keys: driver.Pick(r, "int", "int", "intrev", "string")}
+	h := History{Keys: driver.Pick(r, "int", "int", "intrev", "string", "string", "int/slice", "string/any")}
 	h.ClockN = int64(r.Intn(1 << 30))
 	uni := driver.Pick(r, 2, 3, 4, 6, 8, 16)
 	n := 1 + r.Intn(40)
@@ -311,7 +329,7 @@ func genHistory(r *driver.Rand, thorough bool) History {
 		uni = driver.Pick(r, 4, 8, 16, 32, 64)
 		n = 1 + r.Intn(driver.Pick(r, 60, 300, 2000))
 	}
-	if h.Keys == "string" && uni > len(strUniverse) {
+	if strings.HasPrefix(h.Keys, "string") && uni > len(strUniverse) {
 		uni = len(strUniverse)
 	}
 	mode := r.Intn(5)
